@@ -71,6 +71,7 @@ import json
 import re
 from harness import lib
 from harness.props import _hist as H
+from harness.props import _hist_extra as X
 
 ID = "C08"
 RULE = ("random histories (4-25 calls quick, up to 60 thorough) with 40% failing calls of every listed cause, interleaved "
@@ -110,20 +111,6 @@ def _long_name(rng, avoid=()):
     return n
 
 
-def _replay(case):
-    """the text model after every step of the history (states[k] = before step k), the way the generator ran it"""
-    m = H.TextModel(case["flavour"])
-    states = [m.copy()]
-    for step, lab in zip(case["hist"], case["labels"]):
-        if lab not in H.NOAPPLY and step[0] != "addline0":
-            try:
-                m.apply(step)
-            except Exception:  # the model is only used to pick plausible targets
-                pass
-        states.append(m.copy())
-    return states
-
-
 def _seg(rng, m, p_undefined=0.35):
     d = m.ids_of("S")
     return rng.choice(d) if d and not rng.chance(p_undefined) else rng.choice(H.SEGS)
@@ -133,7 +120,7 @@ def inject_long_digits(rng, case):
     """insert one or two calls that use an identifier of (about) INT_MAX_STR_DIGITS decimal digits; the steps of the base
     history keep their order"""
     v = case["flavour"]
-    states = _replay(case)
+    states = X.replay_states(case)
     n = len(case["hist"])
     ins = []  # (position, step, label)
     kinds = ["rename", "rename", "add-id", "mention"]
@@ -194,12 +181,7 @@ def inject_long_digits(rng, case):
             if rng.chance(0.6):
                 ins.append((rng.randint(k, n), ["add", "S\t%s\t*" % long1 if v == "gfa1" else "S\t%s\t10\t*" % long1],
                             "add:S:longdigits-def"))
-    hist, labels = list(case["hist"]), list(case["labels"])
-    # stable: later positions first, so that earlier positions stay valid; of two calls at the same position the one
-    # listed first comes first
-    for pos, step, lab in sorted(ins, key=lambda x: -x[0]):
-        hist.insert(pos, step); labels.insert(pos, lab)
-    return dict(case, hist=hist, labels=labels)
+    return X.insert_steps(case, ins)
 
 
 def gen_case(rng, tier, i):
